@@ -17,6 +17,17 @@ def stepper(budget_q=12, budget_t=180, **kw):
     e.update(kw)
     return e
 
+def eng(bin, pkg, budget_q=20, budget_t=240, **kw):
+    e = {"bin": bin, "pkg": pkg, "budget": {"quick": budget_q, "thorough": budget_t}}
+    e.update(kw)
+    return e
+
+SEQ_ASSUME = [
+    "the reference model in the engine encodes the property statement literally; where the statement leaves behaviour "
+    "open every allowed outcome is accepted",
+    "coverage is limited to the generated cases of this run",
+]
+
 REGISTRY = {
     "C01": {"engines": [stress(budget_q=20), stepper(budget_q=6, budget_t=90)], "assumptions": COMMON_ASSUME},
     "C02": {"engines": [stress()], "assumptions": COMMON_ASSUME},
@@ -30,4 +41,11 @@ REGISTRY = {
         "stepper: one in-flight future per handle; a Stream poll is followed through to Ready (abandoning the wrapper "
         "drops no library future); wakers never poll inline"]},
     "C09": {"engines": [stress(budget_q=20), stepper(budget_q=6, budget_t=90)], "assumptions": COMMON_ASSUME},
+    "C18": {"engines": [eng("ioc_check", "vh_ioc")], "assumptions": SEQ_ASSUME + [
+        "cycle cases run in child processes; a hang is a violation only when every task of the child is provably asleep "
+        "(no CPU tick, no context switch over 1.2 s), otherwise inconclusive"]},
+    "C19": {"engines": [eng("log_check", "vh_logging", grace=60)], "assumptions": SEQ_ASSUME + [
+        "every generated case runs in a child process (logging init is process-global); custom and file appenders only"]},
+    "C20": {"engines": [eng("enc_roller", "vh_logging")], "assumptions": SEQ_ASSUME + [
+        "the roller is driven through the cfg-gated accessors with a scripted forward-moving clock over a private directory"]},
 }
